@@ -94,7 +94,7 @@ HARNESS = r"""
 int nondet_int(void); size_t nondet_size(void); _Bool nondet_bool(void); unsigned nondet_unsigned(void);
 
 void h_instrLen(void) { instrLen(nondet_int(), nondet_int(), nondet_int()); }
-void h_numNibbles(void) { numNibbles(nondet_int()); }
+void h_numNibbles(void) { int cex_value = nondet_int(); numNibbles(cex_value); }
 
 /* ---------- ghost state of one pass ---------- */
 static size_t _i, gk, gt, gc; static int old_gk, old_gt;
@@ -499,6 +499,22 @@ def native_stage(chk, pid):
         f = os.path.join(hv.OUTROOT, "replay", "%s-native-sweep.S" % pid)
         open(f, "w").write(mine[1])
         chk.add_violation("native-sweep", f, mine[2], True)
+    # directed distances: every operand m*16^k + {-1,0,1} (both signs for relative references, word addresses for absolute ones)
+    limit = 790000
+    rc, o, e, secs = hv.run([exe, "distances", str(limit)], timeout=3000)
+    try:
+        ds = json.loads(o)
+    except Exception:
+        raise hv.Infra("native directed-distance stage failed: " + (o + e)[-800:])
+    d5, d17 = ds.pop("first_c05", ""), ds.pop("first_c17", "")
+    ds["stage"] = "real hexasm on programs whose reference operand is exactly +-(m*16^k + {-1,0,1}) (relative) or m*16^k + {-1,0,1} (absolute), up to %d" % limit
+    ds["secs"] = round(secs, 1)
+    chk.native.append(ds)
+    mine = (ds["bad_layout_or_reference"], d5, ds.get("why_c05")) if pid == "C05" else (ds["bad_layout_or_reference"] + ds["bad_listing_only"], d17 or d5, ds.get("why_c17") or ds.get("why_c05"))
+    if mine[0] and not chk.violations:
+        f = os.path.join(hv.OUTROOT, "replay", "%s-native-distance.S" % pid)
+        open(f, "w").write(mine[1])
+        chk.add_violation("native-distances", f, mine[2], True)
     return exe
 
 
@@ -542,7 +558,8 @@ def jobs_for(unit, tier, prefix="C05"):
     J = hv.Job
     nb = 4 if tier == "quick" else 6
     jobs = [
-        J("numNibbles.contract", unit, "h_numNibbles", enforce="numNibbles", loop_contracts=True, functions=["numNibbles"], role="aux"),
+        J("numNibbles.contract", unit, "h_numNibbles", enforce="numNibbles", loop_contracts=asmx.NUMNIBBLES_LOOP_CONTRACT, unwind=None if asmx.NUMNIBBLES_LOOP_CONTRACT else 9,
+          functions=["numNibbles"], role="aux", note="" if asmx.NUMNIBBLES_LOOP_CONTRACT else "counting loop has no recognised shape: unwound 9 times with unwinding assertions (complete: the loop is bounded by the operand width)"),
         J("instrLen.contract", unit, "h_instrLen", enforce="instrLen", replace=["numNibbles"], loop_contracts=True, functions=["instrLen"], role="aux"),
         J("pass.ref.base", unit, "h_pass_ref_base", functions=["resolveLabels pass"], role="aux"),
         J("pass.ref.step", unit, "h_pass_ref_step", replace=["instrLen", "numNibbles"], object_bits=12, timeout=1500, stop_on_fail=True, functions=["resolveLabels pass body", "Directive family"], role="aux",
@@ -649,6 +666,29 @@ def main(chk, replay_file, pid=PID):
         json.dump({"property": pid, "obligation": name, "desc": f["desc"], "verifier_counterexample": f.get("cex"),
                    "note": "abstract loop-state counterexample; bounded program search and native sweep found no concrete failing program"}, open(p, "w"), indent=1)
         chk.add_violation(name, p, f["desc"], False)
+    # a failed contract of the length functions comes with an operand value: assemble programs whose reference has exactly
+    # that operand on the real assembler
+    for j, f in failed_aux:
+        if j.name != "numNibbles.contract" or chk.violations:
+            continue
+        try:
+            v = hv.parse_c_int(f.get("cex", {})["cex_value"])
+        except (KeyError, ValueError):
+            continue
+        for d in sorted(set([v, -abs(v)])):
+            if abs(d) > 790000:
+                continue
+            rc, o, e, _ = hv.run([exe, "distance", str(d)], timeout=300)
+            try:
+                rr = json.loads(o)
+            except Exception:
+                continue
+            bad = rr.get("bad_layout_or_reference", 0) + (rr.get("bad_listing_only", 0) if pid == "C17" else 0)
+            if bad:
+                p = os.path.join(hv.OUTROOT, "replay", "%s-numNibbles_%d.S" % (pid, d))
+                open(p, "w").write(rr.get("first_c05") or rr.get("first_c17") or "")
+                chk.add_violation("%s:%s" % (j.name, f["name"]), p, "%s; real hexasm with a reference operand of %d: %s" % (f["desc"], d, rr.get("why_c05") or rr.get("why_c17")), True)
+                break
     if failed_aux and not chk.violations:
         for j, f in failed_aux:
             if failed_prop:
